@@ -285,6 +285,8 @@ def parse_prompt(prompt, names=None):
     if names is not None and (label is None or label not in names):
         best = None
         for name in names:
+            if len(name) < 5:
+                continue  # abbreviations are exact labels only
             pos = whole.rfind(name)
             if pos >= 0:
                 # prefer the later occurrence, then the longer name ("Modified Scope" over "Scope")
